@@ -29,8 +29,9 @@ RULE = ("call histories (one process per shard, 75-300 calls each) mixing anneal
         "Python-side precondition contract on every c_anneal_* call, the H2 in-kernel index assertions, and a fixed "
         "reference call repeated at the end of every history. Non-trivial = call that reached the C kernel with >= 2 "
         "spins and >= 1 sweep; distinct = digest of (function, type, terms, kwargs)")
-TIERS = {"quick": {"shards": 8, "cases": 110, "timeout": 1500},
-         "thorough": {"shards": 16, "cases": 5000, "timeout": 6 * 3600, "valgrind_shards": 8, "valgrind_cases": 40}}
+TIERS = {"quick": {"shards": 8, "cases": 110, "timeout": 1500, "fuzz_jobs": 4, "fuzz_runs": 150000},
+         "thorough": {"shards": 16, "cases": 5000, "timeout": 6 * 3600, "valgrind_shards": 8, "valgrind_cases": 40,
+                      "fuzz_jobs": 16, "fuzz_runs": 3000000}}
 FLOOR_BASE = {"quick": 75, "thorough": 5000}    # case counts the floors below were calibrated for; the launcher scales them
 FLOOR_FIXED = {"reference-call-repeats", "leak-probe-calls"}
 CLASSES = ["single-variable", "matrix-gaps", "fields-only", "no-fields", "high-degree", "raw-repeated-labels",
@@ -427,6 +428,10 @@ def custom_run(env):
     if env["replay"]:
         with open(env["replay"]) as f:
             rp = json.load(f)
+        if (rp.get("witness") or {}).get("fuzz_input_hex") is not None:
+            fz = run_fuzzer(env, conf, seed, tmp, only_input=rp["witness"]["fuzz_input_hex"])
+            return launch.conclude(mod, tier, seed, {}, env["t0"], replay=env["replay"], tmp=tmp,
+                                   extra_violations=fz["violations"], extra_inconclusive=fz["inconclusive"])
         seed, tier = rp["seed"], rp["tier"]
         conf = dict(TIERS[tier])
         nshards, cases = rp.get("nshards", conf["shards"]), conf["cases"]
@@ -454,6 +459,11 @@ def custom_run(env):
     leftover = sanit.parse_reports(glob.glob(os.path.join(tmp, "asan-sh*")))
     cov["sanitizer_reports_in_logs"] = len(leftover)
     cov["sanitizer_report_kinds"] = sorted({"%s:%s@%s" % (x["tool"], x["kind"].split(":")[0][:60], x["where"]) for x in leftover})
+    if not env["replay"]:
+        fz = run_fuzzer(env, conf, seed, tmp)
+        cov.update(fz["cov"])
+        extra_viol.extend(fz["violations"])
+        extra_inc.extend(fz["inconclusive"])
     # ---- valgrind memcheck subset on the plain build (thorough only) ---------------------------------------------
     if tier == "thorough" and not env["replay"]:
         vg = run_valgrind(env, conf, seed, tmp)
@@ -462,6 +472,80 @@ def custom_run(env):
         extra_inc.extend(vg["inconclusive"])
     return launch.conclude(mod, tier, seed, results, env["t0"], replay=env["replay"], tmp=tmp, extra_cov=cov,
                            extra_violations=extra_viol, extra_inconclusive=extra_inc)
+
+
+def run_fuzzer(env, conf, seed, tmp, only_input=None):
+    """libFuzzer + ASan + UBSan on the kernels themselves (qvmon/fuzz/kernel_fuzz.c): coverage-guided inputs that satisfy
+    the kernels' precondition, with in-harness oracles (value == energy, spins +-1, T=0 reference sweep, reproducibility)
+    and the H2 invariants.  Deterministic: -runs / -seed, no time limit decides a verdict."""
+    import re
+    out = {"cov": {}, "violations": [], "inconclusive": []}
+    src = os.path.join(boot.repo_root(), "qubovert", "sim", "src")
+    exe = os.path.join(tmp, "kernel_fuzz")
+    cmd = ["clang", "-g", "-O1", "-fsanitize=fuzzer,address,undefined", "-fno-sanitize-recover=undefined",
+           "-D%s=1" % boot.GUARD, "-I", src, os.path.join(env["here"], "qvmon", "fuzz", "kernel_fuzz.c")] + \
+          [os.path.join(src, f) for f in ("anneal_quso.c", "anneal_puso.c", "random.c", "pcg_basic.c")] + ["-lm", "-o", exe]
+    p = subprocess.run(cmd, capture_output=True, text=True)
+    if p.returncode:
+        out["inconclusive"].append("fuzz harness build failed: " + p.stderr[-600:])
+        return out
+    e = dict(os.environ, ASAN_OPTIONS="detect_leaks=1:abort_on_error=0", UBSAN_OPTIONS="print_stacktrace=1")
+    if only_input is not None:
+        f = os.path.join(tmp, "replay-input")
+        with open(f, "wb") as fh:
+            fh.write(bytes.fromhex(only_input))
+        r = subprocess.run([exe, f], capture_output=True, text=True, env=e, timeout=600)
+        if r.returncode:
+            out["violations"].append(fuzz_violation(r.stderr, only_input, seed, "replay"))
+        return out
+    jobs, runs = conf.get("fuzz_jobs", 2), conf.get("fuzz_runs", 100000)
+    procs = []
+    for j in range(jobs):
+        art = os.path.join(tmp, "fuzz-artifact-%d-" % j)
+        corpus = os.path.join(tmp, "corpus%d" % j)
+        os.makedirs(corpus, exist_ok=True)
+        c = [exe, "-runs=%d" % runs, "-seed=%d" % (1000 * seed + j + 1), "-max_len=96", "-artifact_prefix=" + art, "-print_final_stats=1", corpus]
+        procs.append((j, art, subprocess.Popen(c, stdout=subprocess.DEVNULL, stderr=subprocess.PIPE, text=True, env=e)))
+    total = 0
+    covs = []
+    for j, art, pr in procs:
+        try:
+            _, err = pr.communicate(timeout=conf.get("fuzz_timeout", 3600))
+        except subprocess.TimeoutExpired:
+            pr.kill()
+            out["inconclusive"].append("fuzz job %d timed out" % j)
+            continue
+        m = re.search(r"stat::number_of_executed_units:\s*(\d+)", err)
+        total += int(m.group(1)) if m else 0
+        cv = re.findall(r"cov: (\d+) ft: (\d+)", err)
+        if cv:
+            covs.append([int(cv[-1][0]), int(cv[-1][1])])
+        if pr.returncode:
+            arts = glob.glob(art + "*")
+            hx = open(arts[0], "rb").read().hex() if arts else ""
+            out["violations"].append(fuzz_violation(err, hx, seed, "job%d" % j))
+    out["cov"]["fuzz_kernel_executions"] = total
+    out["cov"]["fuzz_edge_coverage(cov,features)"] = covs
+    out["cov"]["fuzz_crashes"] = len(out["violations"])
+    if total < jobs * runs // 2 and not out["violations"]:
+        out["inconclusive"].append("fuzzer executed only %d inputs" % total)
+    return out
+
+
+def fuzz_violation(err, hexinput, seed, where):
+    import re
+    kind = "crash"
+    m = re.search(r"QVFUZZ oracle failure: (.*)", err)
+    if m:
+        kind = "oracle:" + m.group(1).strip()[:70]
+    else:
+        reps = sanit.parse_reports(err)
+        if reps:
+            kind = "%s:%s@%s" % (reps[0]["tool"], reps[0]["kind"].split(":")[0][:50], reps[0]["where"])
+    return {"property": ID, "tag": "fuzz:" + kind, "what": "libFuzzer kernel harness (%s): %s" % (where, kind), "seed": seed,
+            "tier": "thorough", "shard": "fuzz", "nshards": 0, "idx": None,
+            "witness": {"fuzz_input_hex": hexinput, "stderr_tail": err[-2500:],
+                        "how_to_replay": "./check C17 --replay <this file>  (rebuilds qvmon/fuzz/kernel_fuzz.c and runs it on the input)"}}
 
 
 def run_valgrind(env, conf, seed, tmp):
